@@ -33,3 +33,84 @@ def _node_positions(holder):
         return orig(self, code, error_label)
 
     ExprNodes.CodeObjectNode.generate_codeobj = wrapped
+
+
+@installer("defassign")
+def _defassign(holder):
+    """C21: definedness facts.  'cf': for every tracked name reference / deletion the flags that
+    FlowControl.check_definitions just computed (cf_maybe_null, cf_is_null), by source position;
+    'gen': the same flags on the NameNodes of the final tree handed to code generation, with the
+    type of the entry; 'types': per function, the C type that every local ended up with."""
+    from Cython.Compiler import FlowControl, ModuleNode, Visitor
+    facts = holder["facts"] = {"cf": [], "gen": [], "types": {}, "errors": []}
+    orig_check = FlowControl.check_definitions
+
+    def check_definitions(flow, compiler_directives):
+        r = orig_check(flow, compiler_directives)
+        try:
+            for block in flow.blocks:
+                for stat in block.stats:
+                    if isinstance(stat, FlowControl.NameReference):
+                        node, kind = stat.node, "ref"
+                    elif isinstance(stat, FlowControl.NameAssignment):
+                        node, kind = stat.lhs, ("del" if stat.is_deletion else "asg")
+                    else:
+                        continue
+                    pos = getattr(node, "pos", None)
+                    if not pos or not hasattr(node, "cf_maybe_null"):
+                        continue
+                    facts["cf"].append({"line": int(pos[1]), "col": int(pos[2]), "name": str(stat.entry.name),
+                                        "kind": kind, "mn": bool(node.cf_maybe_null), "isn": bool(node.cf_is_null)})
+        except Exception as e:      # never disturb the compilation
+            facts["errors"].append(repr(e))
+        return r
+
+    FlowControl.check_definitions = check_definitions
+
+    class Walk(Visitor.TreeVisitor):
+        def __init__(self):
+            super().__init__()
+            self.func = []
+
+        def visit_Node(self, node):
+            self.visitchildren(node)
+
+        def visit_FuncDefNode(self, node):
+            try:
+                scope = node.local_scope
+                name = str(node.entry.name) if getattr(node, "entry", None) is not None else str(getattr(node, "name", "?"))
+                key = "%s@%d" % (name, int(node.pos[1]))
+                d = {}
+                for ename, entry in scope.entries.items():
+                    t = entry.type
+                    d[str(ename)] = {"ctype": t.declaration_code("") if t is not None else "?",
+                                     "pyobject": bool(getattr(t, "is_pyobject", False)),
+                                     "numeric": bool(getattr(t, "is_numeric", False)),
+                                     "in_closure": bool(entry.in_closure), "from_closure": bool(entry.from_closure)}
+                facts["types"][key] = d
+            except Exception as e:
+                facts["errors"].append(repr(e))
+            self.visitchildren(node)
+
+        def visit_NameNode(self, node):
+            try:
+                entry = node.entry
+                if entry is not None and (entry.is_local or entry.in_closure or entry.from_closure):
+                    t = entry.type
+                    facts["gen"].append({"line": int(node.pos[1]), "col": int(node.pos[2]), "name": str(node.name),
+                                         "mn": bool(node.cf_maybe_null), "isn": bool(node.cf_is_null),
+                                         "allow_null": bool(node.allow_null),
+                                         "pyobject": bool(getattr(t, "is_pyobject", False))})
+            except Exception as e:
+                facts["errors"].append(repr(e))
+
+    orig_impl = ModuleNode.ModuleNode.process_implementation
+
+    def process_implementation(self, options, result):
+        try:
+            Walk().visit(self)
+        except Exception as e:
+            facts["errors"].append(repr(e))
+        return orig_impl(self, options, result)
+
+    ModuleNode.ModuleNode.process_implementation = process_implementation
